@@ -30,7 +30,10 @@ TRUSTED = [
 # op codes (shared with BTreeM.step)
 NEW, INS, DEL, DELX, GET, LEN, ITEMS, FREEZE, CLONE, CUR, SEEK, FIRST, LAST, NEXT, PREV, DUMP, ITER = range(1, 18)
 DSET, DGET, DDEL, SADD, SDISC, SIN, NEWSET, COPY = 20, 21, 22, 23, 24, 25, 26, 27
-MUTATING = {INS, DEL, DELX, DSET, DDEL, SADD, SDISC}
+# MutableMapping / MutableSet mixin methods (driven on the implementation and the reference only)
+DPOP, DPOPITEM, DCLEAR, DSETDEFAULT, DUPDATE, SREMOVE, SPOP, SCLEAR = 40, 41, 42, 43, 44, 45, 46, 47
+MIXIN = {DPOP, DPOPITEM, DCLEAR, DSETDEFAULT, DUPDATE, SREMOVE, SPOP, SCLEAR}
+MUTATING = {INS, DEL, DELX, DSET, DDEL, SADD, SDISC} | MIXIN
 
 E_INDEX, E_ASSERT, E_MISMATCH, E_NOMATCH, E_KEY, E_NOTIMM, E_BADT, E_IMMUTABLE = 1, 2, 4, 5, 6, 7, 8, 10
 
@@ -209,6 +212,22 @@ class ImplWorld:
                 return tr.discard(op[2])
             if c == SIN:
                 return int(op[2] in tr)
+            if c == DPOP:
+                return tr.pop(op[2])
+            if c == DPOPITEM:
+                return list(tr.popitem())
+            if c == DCLEAR:
+                return tr.clear()
+            if c == DSETDEFAULT:
+                return tr.setdefault(op[2], op[3])
+            if c == DUPDATE:
+                return tr.update({op[2]: op[3]})
+            if c == SREMOVE:
+                return tr.remove(op[2])
+            if c == SPOP:
+                return tr.pop()
+            if c == SCLEAR:
+                return tr.clear()
             return Err(999)
         except lib.Hang:  # the watchdog of the runner, not an exception of the implementation
             raise
@@ -302,6 +321,8 @@ class RefWorld:
                 return None
             return cur.next() if c == NEXT else cur.prev()
         tr = self.trees[op[1]]
+        if c in MIXIN:
+            return self.mixin(tr, op)
         if c in MUTATING and tr.frozen:
             return Err(E_IMMUTABLE)
         if c == INS:
@@ -360,6 +381,53 @@ class RefWorld:
         raise ValueError(op)
 
 
+def _ref_mixin(self, tr, op):
+    # the collections.abc mixins on top of __getitem__/__setitem__/__delitem__/__iter__ (dict) and
+    # __contains__/add/discard/__iter__ (set): lookups come first, so a frozen tree answers
+    # KeyError for an absent key and Immutable only where a mutation is attempted
+    c = op[0]
+    d = tr.d
+    imm = Err(E_IMMUTABLE)
+    if c == DPOP or c == SREMOVE:
+        if op[2] not in d:
+            return Err(E_KEY)
+        if tr.frozen:
+            return imm
+        v = d.pop(op[2])
+        return v if c == DPOP else None
+    if c == DPOPITEM or c == SPOP:
+        if not d:
+            return Err(E_KEY)
+        if tr.frozen:
+            return imm
+        k = min(d)
+        v = d.pop(k)
+        return [k, v] if c == DPOPITEM else k
+    if c == DCLEAR or c == SCLEAR:
+        if not d:
+            return None
+        if tr.frozen:
+            return imm
+        d.clear()
+        return None
+    if c == DSETDEFAULT:
+        if op[2] in d:
+            return d[op[2]]
+        if tr.frozen:
+            return imm
+        d[op[2]] = op[3]
+        return op[3]
+    if c == DUPDATE:
+        if tr.frozen:
+            return imm
+        d[op[2]] = op[3]
+        return None
+    raise ValueError(op)
+
+
+RefWorld.mixin = _ref_mixin
+
+
 def structure_problems(root, t, creators_ok=None):
     """occupancy t-1..2t-1 except the root, children = elts+1, leaves at one depth, keys sorted"""
     probs = []
@@ -385,6 +453,51 @@ def structure_problems(root, t, creators_ok=None):
     if len(depths) > 1:
         probs.append(f"leaves at depths {sorted(depths)}")
     return probs
+
+
+def deep_check(iw, rw, si, op, full):
+    c = op[0]
+    for ti, (tr, rt) in enumerate(zip(iw.trees, rw.trees)):
+        acc = []
+        tr.visit_in_order(lambda e: acc.append(elt_obs(e)))
+        want = [[k, rt.d[k]] for k in rt.keys()]
+        if acc != want:
+            mut = op[1] if c in MUTATING else None
+            what = "in-order content differs from the reference"
+            if mut is not None and mut != ti:
+                what = "mutation of one tree is observable through another tree (clone not isolated)"
+            return {"kind": "hist:content", "what": what, "step": si, "op": op, "tree": ti, "impl": acc[:50], "ref": want[:50], "sig": what}
+        try:
+            ln = len(tr)
+        except Exception as e:  # noqa  (e.g. a negative size)
+            ln = "len() raised " + type(e).__name__ + ": " + str(e)
+        if ln != len(want):
+            return {"kind": "hist:len", "what": "len() differs from the number of elements", "step": si, "op": op, "tree": ti, "impl": ln, "sig": "len"}
+        probs = structure_problems(tr.root, rt.t)
+        if probs:
+            return {"kind": "hist:structure", "what": "node structure violates the B-tree invariants: " + probs[0], "step": si, "op": op, "tree": ti, "problems": probs[:5], "sig": "structure"}
+        if full and len(want) <= 400:
+            for k, v in want:
+                g = elt_obs(tr.get_element(k))
+                if g != [k, v]:
+                    return {"kind": "hist:lookup", "what": "lookup of a stored key differs from the reference", "step": si, "op": op, "tree": ti, "key": k, "impl": g, "sig": "lookup"}
+            for k in ([want[0][0] - 1, want[-1][0] + 1] if want else [0]):
+                if tr.get_element(k) is not None:
+                    return {"kind": "hist:lookup", "what": "lookup of an absent key returned an element", "step": si, "op": op, "tree": ti, "key": k, "sig": "lookup"}
+            ks = list(iter(tr))
+            if ks != [k for k, _ in want]:
+                return {"kind": "hist:iter", "what": "iteration differs from the reference", "step": si, "op": op, "tree": ti, "impl": ks[:50], "sig": "iter"}
+            cur = tr.cursor()
+            cur.seek_last()
+            back = []
+            while True:
+                e = cur.prev()
+                if e is None or len(back) > len(want) + 2:
+                    break
+                back.append(e.key())
+            if back != [k for k, _ in reversed(want)]:
+                return {"kind": "hist:cursor", "what": "backward cursor walk differs from the reference", "step": si, "op": op, "tree": ti, "impl": back[:50], "sig": "cursor-walk"}
+    return None
 
 
 def check_history(case, deep_every=1):
@@ -414,31 +527,25 @@ def check_history(case, deep_every=1):
                     what = "internal exception " + got.text
                 F.append({"kind": "hist:step", "what": what, "step": si, "op": op, "impl": got, "ref": exp, "sig": what})
                 return F
+        rejected = c in MUTATING and isinstance(exp, Err) and exp.code == E_IMMUTABLE
         deep = (c in MUTATING or c in (CLONE, COPY, FREEZE, NEW, NEWSET)) and (si % deep_every == 0 or si == len(ops) - 1)
-        if deep:
-            for ti, (tr, rt) in enumerate(zip(iw.trees, rw.trees)):
-                acc = []
-                tr.visit_in_order(lambda e: acc.append(elt_obs(e)))
-                want = [[k, rt.d[k]] for k in rt.keys()]
-                if acc != want:
-                    mut = op[1] if c in MUTATING else None
-                    what = "in-order content differs from the reference"
-                    if mut is not None and mut != ti:
-                        what = "mutation of one tree is observable through another tree (clone not isolated)"
-                    F.append({"kind": "hist:content", "what": what, "step": si, "op": op, "tree": ti, "impl": acc[:50], "ref": want[:50], "sig": what})
-                    return F
-                try:
-                    ln = len(tr)
-                except Exception as e:  # noqa  (e.g. a negative size)
-                    ln = "len() raised " + type(e).__name__ + ": " + str(e)
-                if ln != len(want):
-                    F.append({"kind": "hist:len", "what": "len() differs from the number of elements", "step": si, "op": op, "tree": ti, "impl": ln, "sig": "len"})
-                    return F
-                probs = structure_problems(tr.root, rt.t)
-                if probs:
-                    F.append({"kind": "hist:structure", "what": "node structure violates the B-tree invariants: " + probs[0], "step": si, "op": op, "tree": ti, "problems": probs[:5], "sig": "structure"})
-                    return F
+        if deep or rejected:
+            # after a mutation REJECTED by a frozen tree nothing at all may have changed: re-read every
+            # tree completely (items, len, lookup of every key, cursor walk, node structure)
+            f = deep_check(iw, rw, si, op, full=rejected or len(ops) < 150)
+            if f:
+                if rejected:
+                    f["what"] = "a mutation rejected by a frozen tree changed something: " + f["what"]
+                    f["sig"] = "rejected-mutation-side-effect"
+                F.append(f)
+                return F
     return F
+
+
+def in_model(kind, case):
+    if case[0] != 0:
+        return True
+    return not any(isinstance(op, list) and op and op[0] in MIXIN for op in case[1:])
 
 
 def oracle(ctx, kind, case, out):
@@ -914,9 +1021,52 @@ def widen(ctx, disagreements):
     return found
 
 
+def frozen_cases(ctx):
+    """trees frozen while the root / a node on the path holds exactly 2t-1 keys, clones taken before
+    and after the rejected calls; every kind of mutation is attempted on the frozen tree and must be
+    rejected WITHOUT any effect on the frozen tree or on any clone (the oracle re-reads everything
+    after each rejected call)"""
+    v = [9000]
+
+    def fresh():
+        v[0] += 1
+        return v[0]
+
+    plans = [(3, list(range(1, 41))), (4, list(range(6, 62, 2))), (5, list(range(8, 75, 3))), (127, [253, 254, 400])]
+    if ctx.tier == "quick":
+        plans = [(3, list(range(1, 41, 1))), (4, [7, 8, 15, 31, 32, 49]), (5, [9, 10, 50]), (127, [253])]
+    for t, sizes in plans:
+        for nkeys in sizes:
+            for variant in (0, 1):
+                keys = [10 * k for k in range(nkeys)]
+                build = [[NEW, t, variant]] + [[INS, 0, k, fresh(), variant] for k in keys]
+                mid = 10 * (nkeys // 2)
+                ins = [[INS, 0, -5, fresh(), 0], [INS, 0, mid + 5, fresh(), 1], [INS, 0, 10 * nkeys + 5, fresh(), 0], [DSET, 0, mid + 7, fresh()],
+                       [INS, 0, mid, fresh(), 0], [DSET, 0, 0, fresh()]]
+                dels = [[DEL, 0, mid], [DEL, 0, mid + 5], [DDEL, 0, 0], [DDEL, 0, 3], [DELX, 0, mid, 1], [DELX, 0, mid + 5, 1], [DEL, 0, keys[-1]]]
+                rejected = ins + dels if variant == 0 else dels + ins
+                tail = [[ITEMS, 0] if nkeys <= 80 else [LEN, 0], [LEN, 0], [LEN, 1], [DUMP, 0] if nkeys <= 80 else [LEN, 0]]
+                hist = [0] + build + [[FREEZE, 0], [CLONE, 0, 0], [CUR, 1], [SEEK, 0, mid, 1]] + rejected + \
+                    [[COPY, 0], [NEXT, 0], [NEXT, 0]] + tail + \
+                    [[INS, 1, mid + 5, fresh(), 0], [DEL, 2, mid], [INS, 0, 1, fresh(), 0], [LEN, 0], [LEN, 1], [LEN, 2]] + \
+                    ([[ITEMS, 0], [ITEMS, 1], [ITEMS, 2], [DUMP, 1], [DUMP, 2]] if nkeys <= 80 else [])
+                yield "frozen-full", hist
+                if variant == 0 and (ctx.tier == "thorough" or nkeys % 4 == 1):
+                    # the same through the mapping mixins (oracle only)
+                    mix = [[DPOP, 0, mid], [DPOP, 0, mid + 5], [DPOPITEM, 0], [DSETDEFAULT, 0, mid, 1], [DSETDEFAULT, 0, mid + 5, fresh()],
+                           [DUPDATE, 0, mid + 6, fresh()], [DUPDATE, 0, mid, fresh()], [DCLEAR, 0]]
+                    yield "frozen-mixin", [0] + build + [[FREEZE, 0], [CLONE, 0, 0]] + mix + [[COPY, 0], [LEN, 0], [LEN, 1], [LEN, 2],
+                                                                                             [DPOP, 1, mid], [DPOPITEM, 2], [DSETDEFAULT, 1, mid + 5, fresh()], [DCLEAR, 2], [LEN, 0], [LEN, 1], [LEN, 2]]
+                    sbuild = [[NEWSET, t, 0]] + [[SADD, 0, k] for k in keys]
+                    smix = [[SADD, 0, mid + 5], [SADD, 0, mid], [SDISC, 0, mid], [SDISC, 0, mid + 5], [SREMOVE, 0, mid], [SREMOVE, 0, mid + 5], [SPOP, 0], [SCLEAR, 0]]
+                    yield "frozen-mixin", [0] + sbuild + [[FREEZE, 0], [CLONE, 0, 0]] + smix + [[COPY, 0], [LEN, 0], [LEN, 1], [LEN, 2], [SIN, 1, mid],
+                                                                                              [SREMOVE, 1, mid], [SPOP, 2], [SADD, 1, mid + 5], [SCLEAR, 2], [LEN, 0], [LEN, 1], [LEN, 2]]
+
+
 def cases(ctx):
     rng = ctx.rng
     hist = []
+    yield from frozen_cases(ctx)
     yield from targeted_cases(ctx)
     yield from targeted_cases2(ctx)
     # exhaustive small scopes at t = 3
